@@ -69,6 +69,10 @@ HARMLESS = [
      "            offset = self.addr_offset\n            while i <= self.top and self._array[i - offset] is None:\n                i += 1", 'local for the offset in _find_next'),
     ('C19', 'sc3/synth/envelope.py', "            contents.append(type(self)._shape_number(curves[i % len(curves)]))\n            contents.append(type(self)._curve_value(curves[i % len(curves)]))\n\n        self.__envgen_format",
      "            segcurve = curves[i % len(curves)]\n            shape = type(self)._shape_number(segcurve)\n            curvature = type(self)._curve_value(segcurve)\n            contents.append(shape)\n            contents.append(curvature)\n\n        self.__envgen_format", 'locals for shape and curvature in _envgen_format'),
+    ('C02', 'sc3/synth/ugen.py', "        for ugen in reversed(descendants):\n            ugen._remove_antecedent(self)\n        out_stack.append(self)", "        out_stack.append(self)\n        for ugen in reversed(descendants):\n            ugen._remove_antecedent(self)",
+     'unit appended before its descendants are released (they are arranged in later passes either way)'),
+    ('C02', 'sc3/synth/synthdef.py', "        for ugen in reversed(self._children):\n            # // All ugens with no antecedents are made available.\n            ugen._make_available()",
+     "        for ugen in self._children:\n            # // All ugens with no antecedents are made available.\n            ugen._make_available()", 'availability offered first to last (another valid order)'),
     ('C13', 'sc3/seq/patterns/listpatterns.py', "            inval = yield from stm.embed(lst[(i + offset) % size], inval)",
      "            item = lst[(i + offset) % size]\n            inval = yield from stm.embed(item, inval)", 'local for the item in Pser'),
 ]
@@ -107,8 +111,10 @@ BREAKING = [
     ('C08', 'sc3/base/clock.py', "                    sched_secs = self.beats2secs(qpeek[0])\n                    self._sched_cond.wait(\n                        sched_secs - _libsc3.main.elapsed_time())",
      "                    if elapsed_beats == 0:\n                        sched_secs = self.beats2secs(qpeek[0])\n                    self._sched_cond.wait(\n                        sched_secs - _libsc3.main.elapsed_time())", 'TempoClock deadline computed once'),
     ('C02', 'sc3/synth/ugen.py', "            frw.write_i32(file, self._num_inputs())\n            frw.write_i32(file, self._num_outputs())", "            frw.write_i32(file, self._num_outputs())\n            frw.write_i32(file, self._num_inputs())", 'input and output counts swapped in the unit header'),
-    ('C02', 'sc3/synth/ugen.py', "        for ugen in reversed(descendants):\n            ugen._remove_antecedent(self)\n        out_stack.append(self)", "        out_stack.append(self)\n        for ugen in reversed(descendants):\n            ugen._remove_antecedent(self)", 'unit appended before its descendants are released'),
     ('C02', 'sc3/synth/synthdef.py', "            self._constants[value] = len(self._constants)", "            self._constants[value] = len(self._constants) + 1", 'constant slot off by one'),
+    ('C02', 'sc3/synth/ugen.py', "        self._antecedents.remove(ugen)\n        self._make_available()", "        self._make_available()\n        self._antecedents.remove(ugen)", 'availability considered before the antecedent is removed'),
+    ('C02', 'sc3/synth/synthdef.py', "        for ugen in self._children:\n            ugen._antecedents = set()\n            ugen._descendants = set()\n        for ugen in self._children:\n            # // This populates the _descendants and _antecedents.\n            ugen._init_topo_sort()  # pong",
+     "        for ugen in self._children:\n            ugen._antecedents = set()\n            ugen._descendants = set()\n            ugen._init_topo_sort()  # pong", 'sets reset and edges entered in one loop (later resets wipe earlier edges)'),
     ('C01', 'sc3/synth/ugen.py', "            replacement = BinaryOpUGen.new('-', a, b.inputs[0])", "            replacement = BinaryOpUGen.new('+', a, b.inputs[0])", 'a + neg(c) rewritten to a + c'),
     ('C01', 'sc3/synth/ugen.py', "                    if self._synthdef._children[input._synth_index] is input:\n                        input._optimize_graph()", "                    input._optimize_graph()", 'DCE re-optimises a replaced input'),
     ('C03', 'sc3/synth/ugen.py', "                    item[i % len(item)] if isinstance(item, list) else item)", "                    item[min(i, len(item) - 1)] if isinstance(item, list) else item)", 'expansion clips instead of wrapping'),
